@@ -439,10 +439,12 @@ def run(pid, tier, seed):
                         vs = sorted(J.variables(tree)) or ["x"]
                         keys[k] = []
                         for vv in vs:
-                            keys[k].append(len(trees_attr))
-                            trees_attr.append(J.expr_to_E(o._synthetic_partial(vv)))
-                            keys[k].append(len(trees_attr))
-                            trees_attr.append(J.expr_to_E(o._synthetic_partials().get(vv, S.Constant(0))))
+                            for mk in (lambda: o._synthetic_partial(vv), lambda: o._synthetic_partials().get(vv, S.Constant(0))):
+                                keys[k].append(len(trees_attr))
+                                try:
+                                    trees_attr.append(J.expr_to_E(mk()))
+                                except Exception:
+                                    trees_attr.append(J.Const(0))
                 attr = eng_reduce.kf1_attribution(trees_attr)
                 for clause, desc, pl, c in pending:
                     if any(attr[ix] for ix in keys[(pl["name"], c["r"])]) and clause[:3] in ("C06", "C07", "C09", "C05"):
